@@ -131,14 +131,19 @@ func Go(site int, f func()) {
 		go f()
 		return
 	}
-	s.spawn(site, SiteName(site), f)
+	s.spawn(site, SiteName(site), f, false)
 }
 
 //go:norace
-func (s *Sim) spawn(site int, name string, f func()) *task {
+func (s *Sim) spawn(site int, name string, f func(), fromControl bool) *task {
 	t := &task{id: len(s.tasks), permit: make(chan struct{}), done: make(chan struct{}), site: site, kind: KStart, name: name}
 	s.tasks = append(s.tasks, t)
 	ready := make(chan struct{})
+	if fromControl {
+		// the goroutine start must carry the usual happens-before edge from
+		// whoever prepared the task's inputs
+		raceOn()
+	}
 	go func() {
 		raceOff()
 		t.goid = getg()
@@ -150,6 +155,9 @@ func (s *Sim) spawn(site int, name string, f func()) *task {
 		defer s.finish(t)
 		f()
 	}()
+	if fromControl {
+		raceOff()
+	}
 	raceOff()
 	<-ready
 	raceOn()
@@ -299,15 +307,21 @@ func Run(t *testing.T, cfg Config, mainFn func(), jobs ...func()) (out Outcome) 
 
 //go:norace
 func (s *Sim) control(mainFn func(), jobs []func()) {
+	// nothing that uses sync.Pool (fmt) may run between raceOff and raceOn:
+	// the pool's own synchronisation would be ignored and reported as a race
+	names := make([]string, len(jobs))
+	for i := range jobs {
+		names[i] = "job" + string(rune('1'+i%9))
+	}
 	raceOff()
 	cur = s
 	defer func() {
 		cur = nil
 		raceOn()
 	}()
-	s.spawn(0, "main", mainFn)
+	s.spawn(0, "main", mainFn, true)
 	for i, j := range jobs {
-		s.spawn(0, fmt.Sprintf("job%d", i+1), j)
+		s.spawn(0, names[i], j, true)
 	}
 	var parked []*task
 	for {
